@@ -429,6 +429,39 @@ pub struct World {
     /// Some(errno): the receiving process's stdout / stderr cannot be written
     #[serde(default)]
     pub stdio_broken: Option<i32>,
+    /// Some(kind): before this message arrives, ANOTHER caller in the receiving process uses the
+    /// library in a way its documentation says panics (eval with the wrong number of parties or
+    /// bits; the panic is caught, as a server isolating a bad request would). Part of the
+    /// process's history: it must not spoil later, well-formed calls.
+    #[serde(default)]
+    pub misuse_before: Option<u8>,
+}
+
+/// The documented panics of both `eval` functions, provoked on a tiny valid circuit and caught.
+/// kind & 1: wrong number of parties, kind & 2: wrong number of bits, kind & 4: on another thread.
+fn documented_misuse(kind: u8, obs: &mut Obs) {
+    use garble_lang::circuit::Gate;
+    let ssa = Circuit { input_gates: vec![1, 1], gates: vec![Gate::Xor(0, 1)], output_gates: vec![2] };
+    let reg = guarded(|| rc::Circuit::from(&ssa)).ok();
+    let mut shapes: Vec<Vec<Vec<bool>>> = vec![];
+    if kind & 1 != 0 {
+        shapes.push(vec![vec![true]]);
+        shapes.push(vec![]);
+    }
+    if kind & 2 != 0 || shapes.is_empty() {
+        shapes.push(vec![vec![true], vec![]]);
+        shapes.push(vec![vec![true, false], vec![true]]);
+    }
+    for sh in shapes {
+        let (s2, r2, sh2) = (ssa.clone(), reg.clone(), sh.clone());
+        let body = move || {
+            let a = guarded(|| s2.eval(&sh2)).is_err() as u64;
+            let b = r2.as_ref().map(|r| guarded(|| r.eval(&sh2)).is_err() as u64).unwrap_or(0);
+            a + b
+        };
+        let n = if kind & 4 != 0 { std::thread::spawn(body).join().unwrap_or(0) } else { body() };
+        *obs.counters.entry("documented_panics_provoked_before_message".into()).or_insert(0) += n;
+    }
 }
 
 fn yes() -> bool {
@@ -1012,6 +1045,9 @@ fn run_world_inner(w: &World) -> Obs {
         }
     }
     let honest = !changed && w.raw_message.is_none() && w.channel != Channel::Bristol;
+    if let Some(kind) = w.misuse_before {
+        documented_misuse(kind, &mut obs);
+    }
     seams::refuse_threads_after(if w.no_threads { Some(0) } else { w.threads_refused_after });
     receive(w, w.channel, &msg, honest, orig_hash, &mut obs, seedtag);
     seams::refuse_threads(false);
@@ -1601,7 +1637,7 @@ pub fn stream_len(family: &str) -> usize {
 
 fn draw_world(plan: &CasePlan, family: &str, idx: u64, keys: Keys, p: &mut Prng) -> World {
     let dedup = p.chance(3, 4);
-    let mut w = World { program: None, dedup, keys, channel: Channel::JsonSsa, faults: vec![], raw_message: None, prior: vec![], no_threads: false, threads_refused_after: None, env_flip: vec![], stdio_broken: None };
+    let mut w = World { program: None, dedup, keys, channel: Channel::JsonSsa, faults: vec![], raw_message: None, prior: vec![], no_threads: false, threads_refused_after: None, env_flip: vec![], stdio_broken: None, misuse_before: None };
     match family {
         "honest" => {
             // compiler / converter outputs must be accepted (fault-free channel)
@@ -1647,6 +1683,9 @@ fn draw_world(plan: &CasePlan, family: &str, idx: u64, keys: Keys, p: &mut Prng)
                 w.faults = draw_faults(p, &msg, w.channel);
             }
         }
+    }
+    if family != "large" && family != "sweep" && p.chance(1, 6) {
+        w.misuse_before = Some(p.range(1, 7) as u8);
     }
     w
 }
@@ -1695,6 +1734,19 @@ pub fn minimise(w: &World, f: &Finding, history: &[World]) -> (World, Finding) {
             chunk = if chunk > 1 { chunk / 2 } else { 1 };
         }
         bf.what = format!("{} [only on a receiver that handled {} earlier messages on the same thread]", bf.what, best.prior.len());
+    }
+    if best.misuse_before.is_some() || best.prior.iter().any(|q| q.misuse_before.is_some()) {
+        let mut cand = best.clone();
+        cand.misuse_before = None;
+        for q in cand.prior.iter_mut() {
+            q.misuse_before = None;
+        }
+        if let Some(f2) = has_class(&run_world(&cand), &class) {
+            best = cand;
+            bf = f2;
+        } else {
+            bf.what = format!("{} [only after another caller in the same process provoked a documented panic of eval (wrongly shaped inputs, caught)]", bf.what);
+        }
     }
     let mut i = 0;
     while i < best.faults.len() && best.faults.len() > 1 {
@@ -1753,6 +1805,14 @@ pub fn run_case(plan: &CasePlan, seed: u64, idx: u64) -> CaseResult {
     clear_message_cache();
     if family == "sweep" {
         run_sweep(&w, &mut acc);
+        // the receiver's process has a caller that provoked the documented panics of eval before
+        // the honest message arrives (in every encoding)
+        for ch in [Channel::JsonSsa, Channel::JsonReg, Channel::JsonTypeSsa, Channel::JsonTypeReg] {
+            let m = World { faults: vec![], channel: ch, misuse_before: Some(7), ..w.clone() };
+            let stream = vec![m.clone(), World { misuse_before: None, ..m }];
+            let obs = run_worlds(w.keys, &stream);
+            absorb_batch(&obs, &stream, &mut acc);
+        }
     } else if family == "large" {
         run_large(&w, &mut acc);
         *acc.counters.entry("threads_refused_to_code_under_test".into()).or_insert(0) += seams::THREADS_REFUSED.swap(0, std::sync::atomic::Ordering::Relaxed);
